@@ -449,8 +449,8 @@ func TestVerifC01(t *testing.T) {
 			}
 		}
 	}
-	nTx := vrep.Pick(12, 60)
-	rounds := vrep.Pick(1, 4)
+	nTx := vrep.Pick(30, 60)
+	rounds := vrep.Pick(2, 4)
 	i := int64(0)
 	for round := 0; round < rounds; round++ {
 		for _, c := range cfgs {
